@@ -9,7 +9,9 @@ META = dict(
          "transmitted while the socket double answers each send with every possible count, zero or would-block (TLS: "
          "SSLWantWrite/SSLWantRead); all answer sequences with at most 2 (3) non-progress answers are enumerated. After "
          "every service call the bytes accepted by the double must be a prefix of the queue concatenation, at drain "
-         "exactly equal to it, and the real WireLog (buffify) must hold exactly the accepted chunks. Receive side: a "
+         "exactly equal to it, and the real WireLog (buffify) must hold exactly the accepted chunks. The queues are also "
+         "handed over as bytearray objects (total <= 3 / 6) and with one bytearray object queued twice in a row; delivery "
+         "must still be exact and the caller's objects unchanged afterwards. Receive side: a "
          "stream of 1-6 (9) distinct bytes is delivered with every cut and would-block pattern, through serviceReceives "
          "and serviceReceiveOnce with a large and a 2-byte buffer; rxbs must equal the bytes returned so far after every "
          "call and the whole stream at the end.",
@@ -21,8 +23,8 @@ import itertools
 
 from mc import core, net
 
-QUICK = dict(tx_total=6, tx_stalls=2, rx_total=6, rx_stalls=2)
-THOROUGH = dict(tx_total=9, tx_stalls=3, rx_total=9, rx_stalls=3)
+QUICK = dict(tx_total=6, tx_stalls=2, rx_total=6, rx_stalls=2, ba_total=3)
+THOROUGH = dict(tx_total=9, tx_stalls=3, rx_total=9, rx_stalls=3, ba_total=6)
 ALPHABET = b"abcdefghijklmnopqrstuvwxyz"
 TRANSPORTS = ("Client", "ClientTls", "Incomer", "IncomerTls", "Driver", "DriverDeviceNb")
 PORT = 7000
@@ -164,9 +166,15 @@ def stalled(ans):
     return ans == net.BLOCK or ans == net.N(0) or ans[0] == "ssl"
 
 
-def tx_config(kind, lens, stalls, part, replay=None):
-    """All send-answer sequences for one transport and one queue."""
+def tx_config(kind, lens, stalls, part, replay=None, form="bytes"):
+    """All send-answer sequences for one transport and one queue.
+    form: "bytes" - every message an immutable bytes object;
+          "bytearray" - every message a fresh bytearray the caller keeps a reference to;
+          "twice" - the first message is ONE bytearray object queued twice in a row (the caller re-sends its
+                    buffer), followed by the remaining messages as fresh bytearrays."""
     msgs = messages(lens)
+    if form == "twice":
+        msgs = [msgs[0]] + msgs
     total = b"".join(msgs)
     tls = kind.endswith("Tls")
     free = net.Menu(send_partial=True, send_block=True, send_ssl=("want_read",) if tls else ())
@@ -181,7 +189,13 @@ def tx_config(kind, lens, stalls, part, replay=None):
         fn = net.FakeNet(chooser=ch)
         t, sock, wl, addr = make(kind, fn, 8096)
         sock.menu = free if stalls else tight
-        for mm in msgs:
+        if form == "bytes":
+            queued = list(msgs)
+        else:
+            queued = [bytearray(mm) for mm in msgs]
+            if form == "twice":
+                queued[1] = queued[0]            # the same object, queued twice
+        for mm in queued:
             t.tx(mm)
         budget = stalls
         calls = 0
@@ -215,6 +229,9 @@ def tx_config(kind, lens, stalls, part, replay=None):
                                 "made progress; accepted %r of %r" % (calls, sent, total))
             elif sent != total:
                 bad = ("lost-or-repeated", "queue drained but the socket accepted %r, queued %r" % (sent, total))
+        if bad is None and [bytes(q) for q in queued] != msgs:
+            bad = ("caller-buffer-changed", "the bytearray objects handed to tx() were %r and are %r after servicing"
+                   % (msgs, [bytes(q) for q in queued]))
         answers = [net.show(a) for n_, op, a in fn.log if op == "send"]
         LAST["answers"] = answers
         if bad is None and wl is not None:
@@ -230,18 +247,20 @@ def tx_config(kind, lens, stalls, part, replay=None):
         part.evaluations += 1
         nst = sum(1 for a in answers if a in ("block", "n:0") or a.startswith("ssl"))
         if ch.deviations():
-            part.nontrivial("tx|%s|%r|%s" % (kind, lens, ",".join(answers)))
+            part.nontrivial("tx|%s|%r|%s|%s" % (kind, lens, form, ",".join(answers)))
         part.outcome("tx %d stalls, %d sends" % (nst, len(answers)))
         if bad is not None:
             part.violation("%s.serviceTxes|%s" % (kind, bad[0]),
-                           "queue=%s answers=%s" % ("/".join(mm.decode() for mm in msgs), ",".join(answers)),
+                           "queue=%s%s answers=%s" % ("/".join(mm.decode() for mm in msgs),
+                                                      "" if form == "bytes" else " (%s)" % form, ",".join(answers)),
                            "%s transmit: %s" % (kind, bad[1]),
                            dict(transport=kind, direction="tx", queue=[mm.decode() for mm in msgs],
                                 send_answers=answers, choices=ch.choices, accepted=sent.decode(),
-                                case=["tx", kind, list(lens), stalls],
+                                case=["tx", kind, list(lens), stalls, form], queued_as=form,
                                 expected=total.decode(),
-                                how="queue the messages with .tx(), call .serviceTxes() repeatedly; the socket "
-                                    "double answers the successive send() calls as listed"))
+                                how="queue the messages with .tx() (form bytearray: as bytearray objects; twice: the "
+                                    "first bytearray object is queued two times), call .serviceTxes() repeatedly; the "
+                                    "socket double answers the successive send() calls as listed"))
         return bad
 
     if replay is not None:
@@ -346,7 +365,12 @@ def configs(tier):
     out = []
     for lens in shapes(b["tx_total"]):
         for kind in TRANSPORTS:
-            out.append(("tx", kind, lens, b["tx_stalls"]))
+            out.append(("tx", kind, lens, b["tx_stalls"], "bytes"))
+            if sum(lens) <= b["ba_total"]:
+                out.append(("tx", kind, lens, b["tx_stalls"], "bytearray"))
+    for lens in ((1,), (2,), (3,), (2, 1), (3, 1)):       # first message queued twice as one object, then the rest
+        for kind in TRANSPORTS:
+            out.append(("tx", kind, lens, b["tx_stalls"], "twice"))
     for nbytes in range(1, b["rx_total"] + 1):
         for bs in (8096, 2):
             for once in (0, 1):
@@ -359,14 +383,14 @@ def work(cfg):
     init()
     p = core.Part()
     if cfg[0] == "tx":
-        _, kind, lens, stalls = cfg
-        n = tx_config(kind, lens, stalls, p)
+        _, kind, lens, stalls, form = cfg
+        n = tx_config(kind, lens, stalls, p, form=form)
     else:
         _, kind, nbytes, bs, once, stalls = cfg
         n = rx_config(kind, nbytes, bs, once, stalls, p)
     p.notes["%s executions" % cfg[0]] += n
     p.notes["configs"] += 1
-    if n > 1 and cfg[1] in ("Client", "IncomerTls") and cfg[2] in ((2, 1), 3):
+    if n > 1 and cfg[1] in ("Client", "IncomerTls") and cfg[2] in ((2, 1), 3) and cfg[-1] != "bytearray":
         p.sample(dict(config=cfg, executions=n, last_execution_answers=LAST.get("answers")))
     return p
 
@@ -378,7 +402,7 @@ def replay(path):
     p = core.Part()
     c = r["case"]
     if c[0] == "tx":
-        tx_config(c[1], tuple(c[2]), c[3], p, replay=r["choices"])
+        tx_config(c[1], tuple(c[2]), c[3], p, replay=r["choices"], form=(c[4] if len(c) > 4 else "bytes"))
     else:
         rx_config(c[1], c[2], c[3], c[4], c[5], p, replay=r["choices"])
     return finish_replay("C24", path, p)
@@ -403,13 +427,16 @@ def run():
         "would-block on recv while bytes are queued in the double models bytes still in flight",
         "the serial Driver sees its device only through server.send()/receive(); DeviceNb is driven through a fake os "
         "module with .fd set by hand because DeviceNb.open() needs a tty",
+        "data handed to tx() stays the caller's: a bytearray passed in is not modified by servicing, and an object queued "
+        "twice counts as two messages with the content it had when queued",
         "after the stall budget is used up every further send makes progress, so a queue that is not drained within "
         "len+stalls+2 service calls is reported as stuck",
     ]
     ck.coverage_extra = dict(bounds=b, transports=list(TRANSPORTS), configurations=len(cfgs))
     return ck.finish(
         rule="per transport class: every queue of 1-3 messages of 1-3 bytes with total <= %(tx_total)d x every sequence of "
-             "send answers (each count len..0, would-block, TLS want-read) with <= %(tx_stalls)d non-progress answers; every "
+             "send answers (each count len..0, would-block, TLS want-read) with <= %(tx_stalls)d non-progress answers, "
+             "messages as bytes, as bytearrays (total <= %(ba_total)d) and with the first bytearray object queued twice; every "
              "stream of 1..%(rx_total)d bytes x bufsize {8096,2} x {serviceReceives, serviceReceiveOnce} x every sequence "
              "of recv answers (each cut, would-block) with <= %(rx_stalls)d would-blocks; non-trivial = at least one "
              "non-default answer" % b,
